@@ -70,6 +70,26 @@ func faultAtom(t *rapid.T) (ast.Expr, string) {
 		{"nan", ast.Bin("*", lit("1e6000"), lit("1e6000"))},
 		{"nan", ast.Bin("/", lit("1e6000"), lit("1e-6000"))},
 	}
+	if rapid.IntRange(0, 5).Draw(t, "anyfn") == 0 {
+		// a wrong argument count for any built-in (arguments of plausible kinds)
+		name := gen.Pick(t, "fn", model.FuncNames)
+		sig := model.Sigs[name]
+		n := sig.Min - 1
+		if sig.Max >= 0 && rapid.Bool().Draw(t, "over") {
+			n = sig.Max + 1 + rapid.IntRange(0, 1).Draw(t, "extra")
+		}
+		if n >= 0 && !(n == 0 && (name == "merge" || name == "zip")) {
+			args := make([]ast.Arg, n)
+			for i := range args {
+				if sig.IsRef(i) {
+					args[i] = ast.Ref(ast.F("k"))
+				} else {
+					args[i] = ast.A(gen.Pick(t, "argv", []ast.Expr{a, ast.Cur(), ast.RawS("x"), one}))
+				}
+			}
+			return ast.Call(name, args...), "arity"
+		}
+	}
 	at := atoms[rapid.IntRange(0, len(atoms)-1).Draw(t, "atom")]
 	return at.e, at.class
 }
